@@ -14,6 +14,7 @@ import NumbersModel.Lemmas.CustomFmt
 import NumbersModel.Lemmas.LimitDen
 import NumbersModel.Lemmas.SciFmt
 import NumbersModel.Lemmas.TrNumFmt
+import NumbersModel.Lemmas.FormatDispatch
 import NumbersModel.Gen.Constants
 namespace NumbersModel.Props.C13
 open NumbersModel NumbersModel.Digits NumbersModel.NumFmt
@@ -460,6 +461,282 @@ example : formattedValueRenderer ⟨false, false, false, false, none, none, none
 
 end Custom
 
+end NumbersModel.Props.C13
+
+/-! ## the format-selection glue (`Model/FormatDispatch.lean`): `Formatting.__post_init__`, `Table.set_cell_formatting` /
+`_set_cell_data_format`, `format_archive`, `control_cell_archive`, `Cell._set_formatting`, `Cell.formatted_value` /
+`_custom_format` — which formatter is called, with which arguments, for which cell kind and format record.
+
+`formatterOf t f places` (Lemmas/FormatDispatch.lean) is the formatter of format type `t` with its arguments taken unchanged
+from the `Formatting` object `f`; `setThenDisplay env c name args` is `set_cell_formatting(name, **args)` followed by
+`formatted_value` on the cell `c`. -/
+namespace NumbersModel.Props.C13
+section Glue
+open NumbersModel NumbersModel.Digits NumbersModel.NumFmt NumbersModel.FormatDispatch
+
+/-- the enums and tables the dispatch is driven by are those of the live modules (regenerated on every run): the members and
+    integer values of `FormattingType` / `ControlFormattingType`, the interaction types `control_cell_archive` writes, the
+    class names of `FORMATTING_ALLOWED_CELLS`, and the defaults of the `Formatting` dataclass the theorems below spell out. -/
+theorem dispatch_tables_as_modelled :
+    Gen.formattingTypes = FType.all.map (fun t => (t.name, t.code)) ∧
+    Gen.controlFormattingTypes = CType.all.map (fun c => (c.toFType.name, c.toFType.code)) ∧
+    (CellKind.all.map (·.className)).all (Gen.cellClassNames.contains ·) = true ∧
+    (Gen.formattingAllowedCells.all fun e => e.2.all (Gen.cellClassNames.contains ·)) = true ∧
+    Gen.formattingAllowedCells.map (·.1) = ["base", "currency", "datetime", "fraction", "number", "percentage", "popup",
+      "rating", "scientific", "slider", "stepper", "tickbox"] ∧
+    (Gen.formattingAllowedCells.all fun e => (FType.all.filter (· ≠ .text)).any (·.lower == e.1)) = true ∧
+    [("STEPPER", INTERACTION_STEPPER), ("SLIDER", INTERACTION_SLIDER), ("RATING", INTERACTION_RATING),
+      ("POPUP", INTERACTION_POPUP), ("TOGGLE", INTERACTION_TOGGLE)].all (Gen.cellInteractionTypes.contains ·) = true ∧
+    Gen.formattingActionCells = ["tickbox", "rating", "popup", "slider", "stepper"] ∧
+    defaultControlFormat = .control .number ∧ Gen.fdType = FType.number.code ∧
+    Gen.fdCurrencyCode = "GBP" ∧ Gen.fdDecimalPlaces = none ∧ Gen.fdBase = 10 ∧ Gen.fdBasePlaces = 0 ∧
+    Gen.fdBaseUseMinusSign = true ∧ Gen.fdFractionAccuracy = 4294967293 ∧ Gen.fdNegativeStyle = 0 ∧
+    Gen.fdShowThousandsSeparator = false ∧ Gen.fdUseAccountingStyle = false ∧ Gen.fdAllowNone = false ∧
+    Gen.fdPopupValues = ["Item 1"] ∧ Gen.fdIncrement = (false, 10, -1) ∧ Gen.fdMaximum = (false, 1000, -1) ∧
+    Gen.fdMinimum = (false, 10, -1) ∧ DateFmt.validFormat Gen.fdDateTimeFormat.toList = true := by decide
+
+/-- the names `set_cell_formatting` accepts are exactly the lower-case names of the format types other than TEXT (a name that
+    is no key of `FORMATTING_ALLOWED_CELLS`, in whatever case, is the `TypeError` "unsuported cell format type"). -/
+theorem format_names :
+    (FType.all.all fun t =>
+      match resolveType t.lower.toList with
+      | .ok (t', _) => t' == t && t != .text
+      | .error e => t == .text && e == .TypeError) = true ∧
+    resolveType "NUMBER".toList = .error .TypeError ∧ resolveType [] = .error .TypeError := by decide
+
+/-- **dispatch_total** — for every cell (whatever it carried before), every name and every combination of arguments:
+    `set_cell_formatting` either raises one of `TypeError` / `IndexError` / `ValueError`, or stores an archive on which the
+    dispatch of `formatted_value` selects exactly one formatter (`selectFormatter` is a function and it cannot fail: its only
+    exception, the `KeyError` of a custom uid missing from the document's list, needs a `custom_uid`, which
+    `format_archive` never writes). -/
+theorem dispatch_total (c : Cell) (name : Text) (a : Args) :
+    (∀ e, setCellDataFormat c name a = .error e → e = .TypeError ∨ e = .IndexError ∨ e = .ValueError) ∧
+    (∀ c', setCellDataFormat c name a = .ok c' → ∃ fm, selectFormatter c' = .ok fm) :=
+  ⟨fun e h => set_error_class c name a e h, fun c' h => set_then_select_total c name a c' h⟩
+
+/-- **`Formatting.__post_init__`** — when `Formatting(type=t, **args)` is accepted: no unknown keyword was passed; every
+    argument not passed has its documented default (`GBP`, base 10, 0 places, minus sign, up to three digits, no separator,
+    no accounting style, `dd MMM yyyy HH:mm`); `use_accounting_style` overrides `negative_style`; the decimal places are the
+    ones passed, else 2 for a currency and automatic (253) otherwise — where "currency" / "base" mean the number format the
+    value is displayed in (`nt`: the format itself, or a slider's / stepper's `control_format`); a date format holds only
+    documented directives, a currency code is in `CURRENCIES`, a base is in 2 … 36 and two's complement is only asked for in
+    base 2, 8 or 16. -/
+theorem formatting_defaults (t : FType) (a : Args) (f : Formatting) (p : Int) (h : Formatting.make t a = .ok (f, p)) :
+    let nt := (Formatting.init t a).numberType
+    a.unknownKeyword = false ∧ f.type = t ∧
+    f.showThousands = a.showThousands.getD false ∧ f.useAccounting = a.useAccounting.getD false ∧
+    f.currencyCode = a.currencyCode.getD "GBP".toList ∧ f.base = a.base.getD 10 ∧ f.basePlaces = a.basePlaces.getD 0 ∧
+    f.baseUseMinus = a.baseUseMinus.getD true ∧ f.fractionAccuracy = a.fractionAccuracy.getD 4294967293 ∧
+    f.dateTimeFormat = a.dateTimeFormat.getD "dd MMM yyyy HH:mm".toList ∧
+    f.negativeStyle = (if a.useAccounting.getD false = true ∧ a.negativeStyle.getD 0 ≠ 0 then 0 else a.negativeStyle.getD 0) ∧
+    p = (match a.decimalPlaces with
+         | some (some q) => q
+         | _ => if nt = .currency then 2 else 253) ∧
+    (t = .datetime → DateFmt.validFormat f.dateTimeFormat = true) ∧
+    (nt = .currency → (Gen.currencies.any fun c => c.toList == f.currencyCode) = true) ∧
+    (nt = .base → 2 ≤ f.base ∧ f.base ≤ 36 ∧ (f.baseUseMinus = true ∨ f.base = 2 ∨ f.base = 8 ∨ f.base = 16)) :=
+  formatting_post_init t a f p h
+
+/-- **set_then_display** — for each built-in number format: what `set_cell_formatting(name, **args)` stores on a number cell is
+    what `formatted_value` dispatches on. The text (or the exception) is that of the formatter of this format type applied to
+    the cell's value with the arguments of the `Formatting` object, unchanged. -/
+theorem set_then_display (env : Env) (c : Cell) (hk : c.kind = .number) (hd : c.durationFmt = none) (a : Args) (t : FType)
+    (ht : t = .base ∨ t = .currency ∨ t = .fraction ∨ t = .number ∨ t = .percentage ∨ t = .scientific ∨ t = .rating) :
+    setThenDisplay env c t.lower.toList a =
+      (Formatting.make t a >>= fun r => formatterOf t r.1 r.2) >>= applyFormatter env c := by
+  rw [setThenDisplay_eq]
+  rcases ht with rfl | rfl | rfl | rfl | rfl | rfl | rfl
+  · rw [show FType.base.lower = "base" from rfl, set_base c hk hd a]
+  · rw [show FType.currency.lower = "currency" from rfl, set_currency c hk hd a]
+  · rw [show FType.fraction.lower = "fraction" from rfl, set_fraction c hk hd a]
+  · rw [show FType.number.lower = "number" from rfl, set_number c hk hd a]
+  · rw [show FType.percentage.lower = "percentage" from rfl, set_percentage c hk hd a]
+  · rw [show FType.scientific.lower = "scientific" from rfl, set_scientific c hk hd a]
+  · rw [show FType.rating.lower = "rating" from rfl, set_rating c hk hd a]
+
+/-- … a tickbox on a bool cell displays the checkbox glyph of the value … -/
+theorem set_then_display_tickbox (env : Env) (c : Cell) (hk : c.kind = .bool) (hd : c.durationFmt = none) (a : Args) :
+    setThenDisplay env c "tickbox".toList a =
+      (Formatting.make .tickbox a >>= fun _ =>
+        pure (if c.value.truthy then Gen.checkboxTrueValue.toList else Gen.checkboxFalseValue.toList)) := by
+  rw [setThenDisplay_eq, set_tickbox c hk hd a]
+  cases Formatting.make .tickbox a <;> rfl
+
+/-- … a popup (text or number cell) keeps displaying `str(value)`: the archive stored for it is not one `_custom_format`
+    renders (a TEXT archive; on a number cell the BASE archive the key `True` selects) … -/
+theorem set_then_display_popup (env : Env) (c : Cell) (hk : c.kind = .number ∨ c.kind = .text) (hd : c.durationFmt = none)
+    (a : Args) (txt : Text) (h : setThenDisplay env c "popup".toList a = .ok txt) : txt = c.strValue := by
+  rw [setThenDisplay_eq, set_popup c hk hd a] at h
+  cases hm : Formatting.make .popup a with
+  | error e => simp [hm, bind, Except.bind] at h
+  | ok r =>
+    simp only [hm, bind, Except.bind] at h
+    cases hp : popupCheck c r.1 with
+    | error e => simp [hp] at h
+    | ok u =>
+      simp only [hp] at h
+      cases hf : formatArchive (if c.kind = CellKind.text then FType.text.code else 1) r.1 r.2 with
+      | error e => simp [hf] at h
+      | ok v =>
+        simp only [hf, pure, Except.pure, applyFormatter] at h
+        injection h with h
+        exact h.symm
+
+/-- … and **the control formats display the value under their number format**: a slider or stepper with
+    `control_format=ct` displays exactly what the number format `ct` itself displays for the same arguments — same
+    validation (an unknown currency code or a base outside 2 … 36 is rejected), same defaults (a currency shows two places),
+    same formatter with the same arguments — and fails with the same exception when it fails. -/
+theorem control_displays_number_format (env : Env) (c : Cell) (hk : c.kind = .number) (hd : c.durationFmt = none) (a : Args)
+    (t : FType) (ht : t = .slider ∨ t = .stepper) (ct : CType) :
+    setThenDisplay env c t.lower.toList { a with controlFormat := some (.control ct) } =
+      setThenDisplay env c ct.toFType.lower.toList a := control_display_eq env c hk hd a t ht ct
+
+/-- without `control_format` a slider / stepper displays the value as the decimal format does; a `control_format` that is no
+    `ControlFormattingType` is rejected. -/
+theorem control_default_and_invalid (env : Env) (c : Cell) (hk : c.kind = .number) (hd : c.durationFmt = none) (a : Args) :
+    (a.controlFormat = none →
+      setThenDisplay env c "slider".toList a =
+        (Formatting.make .slider a >>= fun r => formatterOf .number r.1 r.2) >>= applyFormatter env c) ∧
+    (a.controlFormat = none →
+      setThenDisplay env c "stepper".toList a =
+        (Formatting.make .stepper a >>= fun r => formatterOf .number r.1 r.2) >>= applyFormatter env c) ∧
+    (a.controlFormat = some .invalid → ∀ c', setCellDataFormat c "slider".toList a ≠ .ok c' ∧
+      setCellDataFormat c "stepper".toList a ≠ .ok c') := by
+  refine ⟨fun h => ?_, fun h => ?_, fun h c' => ⟨set_slider_invalid c a h c', set_stepper_invalid c a h c'⟩⟩
+  · rw [setThenDisplay_eq, set_slider_default c hk hd a h]
+  · rw [setThenDisplay_eq, set_stepper_default c hk hd a h]
+
+/-- the control archive stored with the cell is of the documented kind and carries the arguments. -/
+theorem control_archive_kind (t : FType) (f : Formatting) :
+    (t = .tickbox → controlCellArchive t f = { interaction := INTERACTION_TOGGLE }) ∧
+    (t = .rating → (controlCellArchive t f).interaction = INTERACTION_RATING) ∧
+    (t = .slider → controlCellArchive t f = { interaction := INTERACTION_SLIDER, range := some (f.minimum, f.maximum, f.increment) }) ∧
+    (t = .stepper → controlCellArchive t f = { interaction := INTERACTION_STEPPER, range := some (f.minimum, f.maximum, f.increment) }) ∧
+    (t = .popup → controlCellArchive t f =
+      { interaction := INTERACTION_POPUP, popup := some (popupEntries f.popupValues, !f.allowNone) }) := by
+  refine ⟨?_, ?_, ?_, ?_, ?_⟩ <;> intro h <;> subst h <;> simp [controlCellArchive]
+
+/-- **display_reads_back** (decimal family) — the C13 clauses stated once over `set_cell_formatting` + `formatted_value`: when a
+    number cell holding `v` is given the `number` (or `percentage`) format with whatever arguments and displays `txt`, then
+    `txt` is `_format_decimal` of the value (times 100 for a percentage) under the decimal places / separator / negative style
+    the `Formatting` object holds; with everything but digits and the point removed it is exactly the plain digits
+    (`decoration_only`); and with `dp` (not automatic) places it shows exactly `dp` decimals which, read back with the integer
+    digits as one integer, are the value at 15 significant digits scaled by `10^dp` and rounded half up
+    (`decimal_reads_back`, `places_exact`). -/
+theorem display_reads_back (env : Env) (c : Cell) (hk : c.kind = .number) (hd : c.durationFmt = none) (v : NumVal)
+    (hv : c.d128 = some v) (a : Args) (pct : Bool) (txt : Text)
+    (h : setThenDisplay env c (if pct then "percentage" else "number").toList a = .ok txt) :
+    ∃ f p dp ns, Formatting.make (if pct then .percentage else .number) a = .ok (f, p) ∧ u32 p = .ok dp ∧
+      u32 f.negativeStyle = .ok ns ∧
+      let d := if pct then v.times100 else v.repr
+      let fmt : DecFmt := ⟨dp, f.showThousands, ns⟩
+      txt = formatDecimal d fmt pct ∧
+      undecorate txt = plainDigits (decimalDigits d fmt).1 (decimalDigits d fmt).2.1 ∧
+      (dp < AUTO → (decimalDigits d fmt).2.1.length = dp ∧
+        readNat ((decimalDigits d fmt).1 ++ (decimalDigits d fmt).2.1) = some (scaleTo (roundSig d 15) dp)) := by
+  cases pct
+  · have h' := h
+    simp only [Bool.false_eq_true, if_false] at h' ⊢
+    rw [show "number" = FType.number.lower from rfl, set_then_display env c hk hd a .number (by simp)] at h'
+    cases hm : Formatting.make .number a with
+    | error e => simp [hm, bind, Except.bind] at h'
+    | ok r =>
+      obtain ⟨f, p⟩ := r
+      simp only [hm, bind, Except.bind, formatterOf] at h'
+      cases h1 : u32 p with
+      | error e => simp [h1] at h'
+      | ok dp =>
+        cases h2 : u32 f.negativeStyle with
+        | error e => simp [h1, h2] at h'
+        | ok ns =>
+          simp only [h1, h2, pure, Except.pure, applyFormatter, hv] at h'
+          injection h' with h'
+          subst h'
+          refine ⟨f, p, dp, ns, (by first | rfl | assumption), (by first | rfl | assumption), (by first | rfl | assumption), rfl, decoration_only _ _ _, fun hp => ?_⟩
+          exact ⟨(places_exact _ ⟨dp, f.showThousands, ns⟩ hp).1, (decimal_reads_back _ ⟨dp, f.showThousands, ns⟩ hp).1⟩
+  · have h' := h
+    simp only [if_true] at h' ⊢
+    rw [show "percentage" = FType.percentage.lower from rfl, set_then_display env c hk hd a .percentage (by simp)] at h'
+    cases hm : Formatting.make .percentage a with
+    | error e => simp [hm, bind, Except.bind] at h'
+    | ok r =>
+      obtain ⟨f, p⟩ := r
+      simp only [hm, bind, Except.bind, formatterOf] at h'
+      cases h1 : u32 p with
+      | error e => simp [h1] at h'
+      | ok dp =>
+        cases h2 : u32 f.negativeStyle with
+        | error e => simp [h1, h2] at h'
+        | ok ns =>
+          simp only [h1, h2, pure, Except.pure, applyFormatter, hv] at h'
+          injection h' with h'
+          subst h'
+          refine ⟨f, p, dp, ns, (by first | rfl | assumption), (by first | rfl | assumption), (by first | rfl | assumption), rfl, decoration_only _ _ _, fun hp => ?_⟩
+          exact ⟨(places_exact _ ⟨dp, f.showThousands, ns⟩ hp).1, (decimal_reads_back _ ⟨dp, f.showThousands, ns⟩ hp).1⟩
+
+/-- **display_reads_back** (number base) — a number cell given the `base` format displays `_format_base` of its value under the
+    base / places / sign convention passed (defaults: base 10, no padding, minus sign), the base is in 2 … 36, so the numeral
+    read back is the value rounded to an integer (`base_reads_back`, `base_format_cases`). -/
+theorem display_reads_back_base (env : Env) (c : Cell) (hk : c.kind = .number) (hd : c.durationFmt = none) (v : NumVal)
+    (hv : c.d128 = some v) (a : Args) (txt : Text) (h : setThenDisplay env c "base".toList a = .ok txt) :
+    ∃ f p b bp, Formatting.make .base a = .ok (f, p) ∧ u32 f.base = .ok b ∧ u32 f.basePlaces = .ok bp ∧
+      2 ≤ b ∧ b ≤ 36 ∧ formatBaseChecked v.repr ⟨b, bp, f.baseUseMinus⟩ = .ok txt ∧
+      txt = formatBase v.repr ⟨b, bp, f.baseUseMinus⟩ ∧
+      parseBase b (zfill bp (toBase b v.repr.roundEvenNat)) = v.repr.roundEvenNat := by
+  rw [show "base" = FType.base.lower from rfl, set_then_display env c hk hd a .base (by simp)] at h
+  cases hm : Formatting.make .base a with
+  | error e => simp [hm, bind, Except.bind] at h
+  | ok r =>
+    obtain ⟨f, p⟩ := r
+    have hb := (formatting_post_init .base a f p hm).2.2.2.2.2.2.2.2.2.2.2.2.2.2 (by simp [Formatting.init, Formatting.numberType])
+    simp only [hm, bind, Except.bind, formatterOf] at h
+    cases h1 : u32 f.base with
+    | error e => simp [h1] at h
+    | ok b =>
+      cases h2 : u32 f.basePlaces with
+      | error e => simp [h1, h2] at h
+      | ok bp =>
+        simp only [h1, h2, pure, Except.pure, applyFormatter, hv] at h
+        have hbv : (b : Int) = f.base := by
+          unfold u32 at h1; split at h1
+          · injection h1 with h1; omega
+          · cases h1
+        have hb2 : 2 ≤ b := by omega
+        have hb36 : b ≤ 36 := by omega
+        refine ⟨f, p, b, bp, (by first | rfl | assumption), (by first | rfl | assumption), (by first | rfl | assumption), hb2, hb36, h, ?_, (base_reads_back b _ bp hb2 hb36).1⟩
+        unfold formatBaseChecked at h
+        have h0 : ¬ b = 0 := by omega
+        have h1' : ¬ b = 1 := by omega
+        have h36 : ¬ (b > 36 ∧ ((toBase b v.repr.roundEvenNat).any fun ch => ch.toNat > 90) = true) := by omega
+        simp only [h0, h1', h36, if_false] at h
+        repeat' split at h
+        all_goals (injection h with h; exact h.symm)
+
+/-! ### non-vacuity (glue) -/
+
+private def gnv (neg : Bool) (m : Nat) (e : Int) : NumVal :=
+  ⟨⟨neg, m, e⟩, ⟨neg, m * 100, e⟩, ⟨neg, m, e⟩, (0, 1), fun _ => (false, 1, 2),
+   fun _ => (⟨⟨neg, m, e⟩, ⟨neg, m, e⟩⟩, ⟨⟨neg, m, e⟩, ⟨neg, m, e⟩⟩)⟩
+private def genv : Env := ⟨fun _ => false, [48], 'x'⟩
+
+example : setThenDisplay genv (Cell.ofNumber (gnv true 12345 (-1)) []) "currency".toList { useAccounting := some true, negativeStyle := some 1 } =
+    .ok "£\t(1234.50)".toList := by decide +kernel
+example : setThenDisplay genv (Cell.ofNumber (gnv false 35 (-1)) []) "stepper".toList { controlFormat := some (.control .currency) } =
+    .ok "£3.50".toList := by decide +kernel
+example : setThenDisplay genv (Cell.ofNumber (gnv false 35 (-1)) []) "slider".toList { controlFormat := some (.control .base), base := some 1 } =
+    .error .TypeError := by decide +kernel
+example : setThenDisplay genv (Cell.ofNumber (gnv false 3 0) "3.0".toList) "popup".toList { popupValues := some [.num ⟨false, 30, -1⟩] } =
+    .ok "3.0".toList := by decide +kernel
+example : setThenDisplay genv (Cell.ofText "a".toList) "popup".toList { popupValues := some [.str "b".toList] } = .error .IndexError := by
+  decide +kernel
+example : setThenDisplay genv (Cell.ofBool true) "tickbox".toList {} = .ok "☑".toList ∧
+    setThenDisplay genv (Cell.ofBool true) "number".toList {} = .error .TypeError ∧
+    setThenDisplay genv (Cell.ofNumber (gnv false 3 0) []) "number".toList { decimalPlaces := some (some (-1)) } = .error .ValueError := by
+  decide +kernel
+example : (setCellDataFormat (Cell.ofNumber (gnv false 3 0) []) "stepper".toList { minimum := some ⟨false, 0, 0⟩ }).toOption.bind (·.control) =
+    some { interaction := 4, range := some (⟨false, 0, 0⟩, ⟨false, 1000, -1⟩, ⟨false, 10, -1⟩) } := by decide +kernel
+
+end Glue
 end NumbersModel.Props.C13
 
 /-! ## Two's complement and fraction layout over the definitions regenerated from the Python source
